@@ -134,6 +134,7 @@ type exchange struct {
 	chunked  bool
 	pieces   []int // split of the body into writes
 	newConn  bool
+	host            string // Host header the client sends ("" = helios.test)
 	stallUpload     bool // at abortUploadAt the client stops sending but keeps its connection open
 	abortUploadAt   int // -1: no
 	abortDownloadAt int // -1: no; close after this many body bytes
@@ -615,7 +616,11 @@ func (c *sClient) dropConn() {
 
 func buildRequestHead(ex *exchange) []byte {
 	var b bytes.Buffer
-	fmt.Fprintf(&b, "%s %s HTTP/1.1\r\nHost: helios.test\r\n", ex.method, ex.target)
+	host := ex.host
+	if host == "" {
+		host = "helios.test"
+	}
+	fmt.Fprintf(&b, "%s %s HTTP/1.1\r\nHost: %s\r\n", ex.method, ex.target, host)
 	for _, kv := range ex.hdr {
 		b.WriteString(kv.K + ": " + kv.V + "\r\n")
 	}
